@@ -34,7 +34,7 @@ def items(tier):
     for kinds in CONFIGS:
         for opt in OPTS:
             out.append({"name": "resume|%s|%s" % ("+".join(kinds), opt), "fam": "resume", "kinds": kinds, "opt": opt, "tier": tier, "cost": 5})
-    for kinds in (["pinn_static", "boundary"], ["pinn_param", "param_penalty"], ["qres", "boundary"]):
+    for kinds in (["pinn_static", "boundary"], ["pinn_param", "param_penalty"], ["qres", "boundary"], ["ritznet"]):
         out.append({"name": "weights|%s" % "+".join(kinds), "fam": "weights", "kinds": kinds, "tier": tier, "cost": 3})
     return out
 
@@ -127,7 +127,7 @@ def weights(item, res, viol, tmp):
         shutil.rmtree(path, ignore_errors=True)
         os.makedirs(path)
         w0 = T.World()
-        mdl = (lambda w_: w_.model3) if "qres" in kinds else (lambda w_: w_.model)
+        mdl = (lambda w_: w_.model3) if "qres" in kinds else ((lambda w_: w_.model4) if "ritznet" in kinds else (lambda w_: w_.model))
         probe = Points(torch.linspace(0.05, 0.95, 7).reshape(-1, 1), T.X)
         before = {k: v.clone() for k, v in mdl(w0).state_dict().items()}
         with torch.no_grad():
